@@ -77,21 +77,21 @@ gossip path then refuses a block whose data was not already that encoding (the h
 signs the re-packed block. `ReceiveBlock` decodes the stored data again — several methods with `common.DealWithErr` on the
 result, i.e. a panic on the producer path if decoding the re-packed data could fail. -/
 
-/-- `unpack_pack` for the flat argument types (static elementary types, `string`, `bytes`): decoding the canonical encoding
-    of well-typed values returns exactly those values. Partial: argument lists with slices (`address[]`, `string[]`,
-    `uint32[]`, `uint256[]`: bridge/liquidity `NominateGuardians`, liquidity `SetTokenTuple`) are not covered by this
-    theorem; for them the statement is checked by the `abi` stream only (re-packed bytes and their decoding compared on the
-    real code). -/
+/-- `unpack_pack` for the flat argument types (static elementary types, `string`, `bytes`, slices of static elementary types
+    such as `address[]`, `uint32[]`, `uint256[]`): decoding the canonical encoding of well-typed values returns exactly those
+    values. Partial: slices of dynamic elements (`string[]`: liquidity `SetTokenTuple`) and arrays are not covered by this
+    theorem; for `SetTokenTuple` the statement is checked by the `abi` stream only (re-packed bytes and their decoding
+    compared on the real code). -/
 theorem unpack_pack_partial (sel : Bytes) (hsel : sel.length = 4) (tys : List Ty) (vs : List Val) (input : Bytes)
     (hflat : ∀ t ∈ tys, t.Flat) (hty : HasTys tys vs) (hp : packMethod sel tys vs = some input)
     (hlen : input.length ≤ maxAlloc) (hne : tys ≠ []) (hk : tys.length ≤ 1048576) :
     unpackMethod sel tys input = .ok vs :=
   unpackMethod_packMethod sel hsel tys vs input hflat hty hp hlen hne hk
 
-/-- which live methods `unpack_pack_partial` covers: every method of every embedded ABI has flat argument types, except the
-    three with slice arguments. -/
+/-- which live methods `unpack_pack_partial` covers: every method of every embedded ABI has flat argument types, except
+    liquidity `SetTokenTuple` (its first argument is a `string[]`). -/
 theorem flat_signatures :
-    ∀ s ∈ Gen.abiSignatures, s.2.2.2.all Ty.flatb = true ∨ s.2.1 = "NominateGuardians" ∨ s.2.1 = "SetTokenTuple" := by
+    ∀ s ∈ Gen.abiSignatures, s.2.2.2.all Ty.flatb = true ∨ s.2.1 = "SetTokenTuple" := by
   decide
 
 theorem signature_lengths : ∀ s ∈ Gen.abiSignatures, s.2.2.2.length ≤ 1048576 := by decide
